@@ -409,6 +409,10 @@ class Check:
             lines.append(f"VIOLATION property={self.prop} replay={path} no-failing-input-found")
             nviol += 1
         elif self.broken:
+            path = os.path.join(rdir, f"{self.prop}-tie.json")
+            json.dump({"property": self.prop, "broken": [list(b) for b in self.broken],
+                       "correspondence_cases": getattr(self, "_corr_replays", [])[:20],
+                       "seed": self.seed}, open(path, "w"), indent=1, default=str)
             for b in self.broken[:10]:
                 lines.append(f"BROKEN-TIE: property={self.prop} {b[0]}: {b[1][:300]}")
         cov = dict(self.cov)
